@@ -8,7 +8,7 @@ import sys
 import time
 
 from vx import typegen as tg, values as V
-from vx.report import Report, run_parallel, tier, seed
+from vx.report import Report, run_parallel, tier, seed, in_repo as _in_repo
 from vx.wenv import ConcEnv
 from checks import wmode, hmode, kmode
 from vx import hybrid as HY
@@ -165,7 +165,7 @@ def _run_sym(job):
             import traceback
 
             tb = traceback.extract_tb(ex.__traceback__)
-            where = next((f"{os.path.basename(f.filename)}:{f.lineno}" for f in reversed(tb) if "/repo/" in f.filename), "harness")
+            where = next((f"{os.path.basename(f.filename)}:{f.lineno}" for f in reversed(tb) if _in_repo(f.filename)), "harness")
             solverish = type(ex).__module__.split(".")[0] in ("z3", "ctypes") or type(ex).__name__ in ("Z3Exception", "ArgumentError")
             if where == "harness" or solverish:
                 # the harness (or the solver binding) failed, not the library: inconclusive for this path, never a finding
@@ -196,7 +196,7 @@ def run_conc(job, model=None, kind=None):
         import traceback
 
         tb = traceback.extract_tb(ex.__traceback__)
-        where = next((f"{os.path.basename(f.filename)}:{f.lineno}" for f in reversed(tb) if "/repo/" in f.filename), "harness")
+        where = next((f"{os.path.basename(f.filename)}:{f.lineno}" for f in reversed(tb) if _in_repo(f.filename)), "harness")
         env.failures.append((f"{pid} the operation raised {type(ex).__name__} ({where}: {str(ex)[:80]})", None))
     return env
 
